@@ -83,6 +83,57 @@ def edge_docs(seed):
     return recs
 
 
+def hl_of(text, lib="default"):
+    rec = {"text": text}
+    if lib != "default":
+        rec["lib"] = lib
+    p = vlib.run_bin("hldump", stdin_data=json.dumps(rec) + "\n")
+    if p.returncode != 0:
+        raise vlib.ToolError("hldump crashed: " + p.stderr.decode()[-1500:])
+    return json.loads(p.stdout.decode().strip())["hl"]
+
+
+def watched_history(out, root, lib):
+    """the tokens of an open document depend on modules that are not open: after the editor reports that such a file
+    changed / was deleted on disk (workspace/didChangeWatchedFiles), the stream must be the one of the workspace as it is now"""
+    main = "import m2\npub fn main() {\n  m2.c()\n  m2.zz(m2.k)\n  m2.A(1)\n}\n"
+    libs = [lib, lib.replace("pub fn c()", "pub fn cc()") + "pub fn zz(x) { x }\n", None, lib]
+    libpath = os.path.join(root, "src", "m2.gleam")
+    path = os.path.join(root, "src", "wmain.gleam")
+    sess = lsp.Session(root, stderr_path=os.path.join(root, "stderr-w.log"))
+    n = 0
+    try:
+        if sess.initialize() is None:
+            raise vlib.ToolError("server did not answer initialize")
+        open(path, "w").write(main)
+        sess.did_open(path, main)
+        for step, l in enumerate(libs):
+            if step > 0:
+                if l is None:
+                    os.remove(libpath)
+                else:
+                    open(libpath, "w").write(l)
+                sess.notify("workspace/didChangeWatchedFiles", {"changes": [{"uri": lsp.uri(libpath), "type": 3 if l is None else (1 if libs[step - 1] is None else 2)}]})
+            # asked twice: the second answer may come from whatever the server kept of the first
+            for rep in range(2):
+                resp = sess.request("textDocument/semanticTokens/full", {"textDocument": {"uri": lsp.uri(path)}})
+                if resp is None or "error" in resp:
+                    out.report({"what": "semanticTokens/full failed", "level": "server", "history": "watched files"}, {"step": step, "response": resp})
+                    continue
+                got = decode((resp["result"] or {}).get("data", []))
+                exp = lsp_projection(main, hl_of(main, l))
+                n += 1
+                if got != exp:
+                    out.report({"what": "tokens are not those of the workspace as it is now", "level": "server", "history": "watched files",
+                                "step": ["open", "changed", "deleted", "created"][step]}, {"text": main, "lib": l, "expected": exp, "got": got})
+    finally:
+        sess.close()
+        open(libpath, "w").write(lib)
+        if os.path.exists(path):
+            os.remove(path)
+    return n
+
+
 def end_to_end(out, hl_path, seed):
     """real programs (GleamGen, seeded layouts with non-ASCII comments) through the real server: the decoded
     semanticTokens/full array must be the LSP projection of the analysis' highlight list; /range a sub-list"""
@@ -133,6 +184,7 @@ def end_to_end(out, hl_path, seed):
                     out.report({"what": "range tokens not among the full tokens", "level": "server"}, {"text": r["text"], "got": sub, "full": exp})
       finally:
         sess.close()
+    n += watched_history(out, root, lib)
     shutil.rmtree(root, ignore_errors=True)
     return n
 
